@@ -87,6 +87,7 @@ type stepRec struct {
 type scenario struct {
 	ID    string    `json:"id"`
 	Seed  int64     `json:"seed"`
+	Late  bool      `json:"late"` // the last resource is not served by discovery until a subscribe to it has failed
 	Steps []stepRec `json:"steps"`
 }
 
@@ -230,6 +231,18 @@ func (e machineryError) Error() string { return e.msg }
 
 func fail(format string, a ...interface{}) { panic(machineryError{fmt.Sprintf(format, a...)}) }
 
+// lateRes: the resource a scenario keeps hidden from discovery at first (0 = none)
+func lateRes(sc *scenario) int {
+	if sc.Late {
+		for _, st := range sc.Steps {
+			if st.Op.T == "subx" {
+				return st.Op.R
+			}
+		}
+	}
+	return 0
+}
+
 func newDrv(sc *scenario, out *lineWriter, timeout time.Duration) *drv {
 	d := &drv{sc: sc, out: out, timeout: timeout}
 	d.srv = vs.NewServer(vs.DefaultResources(), nil)
@@ -242,6 +255,16 @@ func newDrv(sc *scenario, out *lineWriter, timeout time.Duration) *drv {
 		if _, code := d.srv.Seed(ri.key, vs.Obj{"apiVersion": ri.apiVersion, "kind": ri.kind, "metadata": md}); code != 201 {
 			fail("seeding the fence object of %s: code %d", ri.key, code)
 		}
+	}
+	if sc.Late {
+		for _, st := range sc.Steps {
+			if st.Op.T == "subx" {
+				d.srv.Hide(resTab[st.Op.R].key)
+			}
+		}
+		vs.DiscoveryRefresh = 10 * time.Millisecond
+	} else {
+		vs.DiscoveryRefresh = time.Hour
 	}
 	w, err := vs.NewWorld(d.srv, "A", factoryResync)
 	if err != nil {
@@ -277,6 +300,19 @@ func (d *drv) nHandlers() int {
 func (d *drv) execSlot(op opRec) (rv int64) {
 	sl := d.slots[op.S]
 	switch op.T {
+	case "subx":
+		// a subscribe to the resource discovery does not know yet must fail; afterwards the resource is revealed and the
+		// driver waits until the discovery cache has it
+		ri := resTab[op.R]
+		if sub, err := d.w.DynInformers.Resource(ri.apiVersion, ri.resource); err == nil {
+			sub.Close()
+			fail("subx: subscribing to the hidden resource %s succeeded", ri.key)
+		}
+		d.srv.Reveal(ri.key)
+		if !waitUntil(time.Now().Add(d.timeout), func() bool { return d.w.Resources.Get(ri.apiVersion, ri.resource) != nil }) {
+			fail("subx: %s did not become discoverable", ri.key)
+		}
+		return 0
 	case "remev":
 		// the handler of another open subscription of the same informer holds the broadcast of the event up; meanwhile
 		// this slot's handlers are removed from another goroutine
@@ -722,13 +758,13 @@ func (d *drv) cleanup() {
 func runSeq(sc *scenario, out *lineWriter, timeout time.Duration) bool {
 	d := newDrv(sc, out, timeout)
 	defer d.cleanup()
-	out.emit(map[string]interface{}{"ev": "Reset", "sc": sc.ID, "i": 0})
+	out.emit(map[string]interface{}{"ev": "Reset", "sc": sc.ID, "i": 0, "late": lateRes(sc)})
 	for i := range sc.Steps {
 		st := &sc.Steps[i]
 		op := st.Op
 		pmsg := ""
 		switch op.T {
-		case "sub", "add", "rem", "close":
+		case "sub", "add", "rem", "close", "subx":
 			pmsg = guarded(func() { d.execSlot(op) })
 		case "addev", "remev":
 			pmsg = guarded(func() { op.RV = d.execSlot(op) })
@@ -809,7 +845,7 @@ func runRace(sc *scenario, out *lineWriter, timeout time.Duration) bool {
 	}
 	close(start)
 	wg.Wait()
-	out.emit(map[string]interface{}{"ev": "Reset", "sc": sc.ID, "i": 0})
+	out.emit(map[string]interface{}{"ev": "Reset", "sc": sc.ID, "i": 0, "late": lateRes(sc)})
 	for i := range sc.Steps {
 		op := sc.Steps[i].Op
 		op.RV = rvs[i]
